@@ -17,6 +17,7 @@ import (
 
 func init() {
 	extraEngines["C06"] = append(extraEngines["C06"], func(w *World, r *Report) []*Obligation { return schematic(w, r, "C06") })
+	extraEngines["C02"] = append(extraEngines["C02"], func(w *World, r *Report) []*Obligation { return schematic(w, r, "C02") })
 	extraEngines["C01"] = append(extraEngines["C01"], func(w *World, r *Report) []*Obligation { return schematic(w, r, "C01") })
 }
 
@@ -145,6 +146,21 @@ func (w *World) sweepLint(li *LintInfo, prop string) (res sweepResult) {
 	if prop == "C02" {
 		res.obls = append(res.obls, u.obls...)
 	}
+	// one shared group per kind, ordinal = lint name: obligations of lints added later fall
+	// into a claimed group (the properties quantify over present and future lints)
+	cnt := map[string]int{}
+	for _, o := range res.obls {
+		cnt[o.Kind]++
+		if prop == "C02" {
+			// panic-freedom is claimed lint by lint (a lint is claimed when all its safety
+			// obligations discharge on the unchanged tree)
+			o.Name = fmt.Sprintf("C02/lint:%s/safety#%s.%d", li.Name, o.Kind, cnt[o.Kind])
+			o.Func = "lint:" + li.Name
+			continue
+		}
+		o.Name = fmt.Sprintf("%s/lints/%s#%s.%d", prop, o.Kind, li.Name, cnt[o.Kind])
+		o.Func = "lints"
+	}
 	return
 }
 
@@ -152,12 +168,26 @@ func schematic(w *World, r *Report, prop string) []*Obligation {
 	var all []*Obligation
 	nOK, nErr := 0, 0
 	var unsupported []string
+	skip := map[string]bool{}
+	if r.Mode == "check" {
+		for _, f := range loadLedger(w.VerifDir, prop).Unclaimed {
+			skip[f] = true
+		}
+	}
+	var skipped []string
 	for _, li := range w.Lints() {
+		if r.Only != "" && !strings.Contains("lint:"+li.Name+"/", r.Only) {
+			continue
+		}
+		if skip["lint:"+li.Name] {
+			skipped = append(skipped, li.Name)
+			continue
+		}
 		sr := w.sweepLint(li, prop)
 		if sr.err != "" {
 			nErr++
 			unsupported = append(unsupported, li.Name+": "+clipText(sr.err))
-			o := &Obligation{Name: fmt.Sprintf("%s/lint:%s/unsupported#1", prop, li.Name), Prop: prop, Kind: "unsupported", Status: "unknown", Note: "symbolic execution of the lint failed: " + clipText(sr.err), Src: li.Site}
+			o := &Obligation{Name: fmt.Sprintf("%s/lints/unsupported#%s", prop, li.Name), Prop: prop, Kind: "unsupported", Status: "unknown", Note: "symbolic execution of the lint failed: " + clipText(sr.err), Src: li.Site}
 			all = append(all, o)
 			continue
 		}
@@ -171,7 +201,11 @@ func schematic(w *World, r *Report, prop string) []*Obligation {
 			toSolve = append(toSolve, o)
 		}
 	}
-	SolveAll(toSolve, r.QDir, r.Timeout, r.Tier == "thorough", 10)
+	to := r.Timeout
+	if prop == "C02" && r.Tier != "thorough" && to > 4 {
+		to = 4 // the sweep claims only what discharges quickly
+	}
+	SolveAll(toSolve, r.QDir, to, r.Tier == "thorough", 10)
 	// name the offending status of refuted severity obligations (known findings are keyed by it)
 	for _, o := range toSolve {
 		if o.Status == "refuted" && o.statusTerm != "" {
@@ -179,6 +213,10 @@ func schematic(w *World, r *Report, prop string) []*Obligation {
 				o.Note += " [offending status=" + statusName(v[o.statusTerm]) + "]"
 			}
 		}
+	}
+	if len(skipped) > 0 {
+		r.Extra["lints_not_claimed"] = skipped
+		r.Extra["lints_not_claimed_note"] = "these lints had undischarged safety obligations on the unchanged tree when the ledger was written; they are unverified (not held), and are not re-swept by the check"
 	}
 	r.Extra["lints_swept"] = nOK
 	r.Extra["lints_unsupported"] = unsupported
